@@ -225,28 +225,34 @@ func c15hammerOwnChanges(r *rand.Rand, cs c15case, res *core.CaseResult) {
 	var stop int32
 	var ops int64
 	final := make([]map[string]bool, writers)
-	listed := func(dir, name string) (bool, string) {
+	var unavailable int64
+	// listed: is 'name' in the listing of dir? ok=false: no listing could be obtained (F46), nothing can be asserted
+	listed := func(dir, name string) (in bool, prob string, ok bool) {
 		entries, err := hackpadfs.ReadDir(m, dir)
 		for try := 0; err != nil && errors.Is(err, hackpadfs.ErrNotExist) && try < 200; try++ {
 			// (F46) a listing is not a snapshot: it fails when another goroutine's entry vanishes between the names and their Stat
 			entries, err = hackpadfs.ReadDir(m, dir)
 		}
+		if err != nil && errors.Is(err, hackpadfs.ErrNotExist) {
+			atomic.AddInt64(&unavailable, 1)
+			return false, "", false
+		}
 		if err != nil {
-			return false, "listing failed: " + err.Error()
+			return false, "listing failed: " + err.Error(), true
 		}
 		seen := map[string]bool{}
 		prev := ""
 		for i, e := range entries {
 			if seen[e.Name()] {
-				return false, "duplicate name " + e.Name()
+				return false, "duplicate name " + e.Name(), true
 			}
 			if i > 0 && e.Name() < prev {
-				return false, "listing not sorted"
+				return false, "listing not sorted", true
 			}
 			prev = e.Name()
 			seen[e.Name()] = true
 		}
-		return seen[name], ""
+		return seen[name], "", true
 	}
 	var wg sync.WaitGroup
 	body := func() {
@@ -277,7 +283,7 @@ func c15hammerOwnChanges(r *rand.Rand, cs c15case, res *core.CaseResult) {
 								return
 							}
 							mine[name] = true
-							if in, prob := listed(dir, name); prob != "" || !in {
+							if in, prob, ok := listed(dir, name); ok && (prob != "" || !in) {
 								bad = fmt.Sprintf("after its own successful creation of %s the writer's listing of %s does not show it %s", p, dir, prob)
 								return
 							}
@@ -294,9 +300,9 @@ func c15hammerOwnChanges(r *rand.Rand, cs c15case, res *core.CaseResult) {
 							}
 							delete(mine, name)
 							mine[to] = true
-							inOld, _ := listed(dir, name)
-							inNew, prob := listed(dir, to)
-							if inOld || !inNew || prob != "" {
+							inOld, _, ok1 := listed(dir, name)
+							inNew, prob, ok2 := listed(dir, to)
+							if ok1 && ok2 && (inOld || !inNew || prob != "") {
 								bad = fmt.Sprintf("after its own rename %s -> %s the listing shows old=%v new=%v %s", name, to, inOld, inNew, prob)
 								return
 							}
@@ -305,7 +311,7 @@ func c15hammerOwnChanges(r *rand.Rand, cs c15case, res *core.CaseResult) {
 								return
 							}
 							delete(mine, to)
-							if in, _ := listed(dir, to); in {
+							if in, _, ok := listed(dir, to); ok && in {
 								bad = fmt.Sprintf("after its own successful Remove of %s the listing still shows it", to)
 							}
 							return
@@ -315,7 +321,7 @@ func c15hammerOwnChanges(r *rand.Rand, cs c15case, res *core.CaseResult) {
 							return
 						}
 						delete(mine, name)
-						if in, prob := listed(dir, name); in || prob != "" {
+						if in, prob, ok := listed(dir, name); ok && (in || prob != "") {
 							bad = fmt.Sprintf("after its own successful Remove of %s the writer's listing of %s still shows it %s", p, dir, prob)
 							return
 						}
@@ -421,5 +427,6 @@ func c15hammerOwnChanges(r *rand.Rand, cs c15case, res *core.CaseResult) {
 	}
 	res.Nontrivial = true
 	res.Count("hammer_own_programs", 1)
+	res.Count("hammer_own_listings_unavailable", int(atomic.LoadInt64(&unavailable)))
 	res.Count("hammer_ops", int(atomic.LoadInt64(&ops)))
 }
